@@ -28,24 +28,33 @@ Example ex_hyp_B :
   (exists e, In e [EWait 1 1 true] /\ is_reg_of 1 e) /\ In ELoop [ELoop].
 Proof. split; [reflexivity|]. split; [exists (EWait 1 1 true); split; [left; reflexivity|exact I]|]. left; reflexivity. Qed.
 
-(* boundary: a second wait_for_exit after the exit was reported stays pending for ever, and leaves a stale
-   entry in Subprocess._waiting (hypothesis of C42_late_registration_never_fires: phase Reported) *)
+(* a second wait_for_exit after the exit was reported (hypotheses of C42_late_registration_fires): it used to stay
+   pending for ever; since fix 830934b it is resolved at the next loop turn and nothing is left in _waiting *)
 Definition ex_late : list event :=
-  [ESpawn 5; EWait 0 0 false; EExit 5 0; ESigchld; ELoop; EWait 0 1 true; ESigchld; ELoop; ESigchld; ELoop].
+  [ESpawn 5; EWait 0 0 false; EExit 5 0; ESigchld; ELoop; EWait 0 1 true; ELoop].
 Example ex_late_phase : c_ph (fold_left (cstep 0) [EWait 0 0 false; EExit 5 0; ESigchld; ELoop] (cinit 5)) = PhReported 0.
 Proof. reflexivity. Qed.
 Example ex_late_result :
-  w_log (run ex_late) = [LCall 0 0 0] /\
-  option_map s_futs (nth_error (w_subs (run ex_late)) 0) = Some [(0%nat, FResult 0); (1%nat, FPending)] /\
-  w_waiting (run ex_late) = [(5, 0%nat)].
+  w_log (run ex_late) = [LCall 0 0 0; LCall 0 1 0] /\
+  option_map s_futs (nth_error (w_subs (run ex_late)) 0) = Some [(0%nat, FResult 0); (1%nat, FResult 0)] /\
+  w_waiting (run ex_late) = [].
 Proof. vm_compute. repeat split. Qed.
 
-(* why the rely condition is needed: a stale _waiting entry (left by a late registration) plus a reused pid makes
-   the OLD object swallow the new child's status; the new object is never told *)
+(* a registration that is REPLACED before _set_returncode runs never fires (one callback slot): label 0 below *)
+Example ex_superseded : w_log (run [ESpawn 5; EReg 0 0; EReg 0 1; EExit 5 0; ESigchld; ELoop; ESigchld; ELoop]) = [LCall 0 1 0].
+Proof. vm_compute. reflexivity. Qed.
+
+(* a stale _waiting entry can still arise: re-registration between reaping and the loop turn (returncode still None) *)
+Example ex_stale : w_waiting (run [ESpawn 5; EReg 0 0; EExit 5 0; ESigchld; EReg 0 1; ELoop]) = [(5, 0%nat)].
+Proof. vm_compute. reflexivity. Qed.
+
+(* why the rely condition is needed: with that stale entry and a reused pid, the OLD object swallows the new child's
+   status (its returncode is overwritten: 0 becomes 1) and the new object is never told *)
 Definition ex_reuse : list event :=
-  [ESpawn 5; EReg 0 0; EExit 5 0; ESigchld; ELoop; EReg 0 1; ESpawn 5; EExit 5 256; ESigchld; ELoop; EReg 1 2; ELoop].
+  [ESpawn 5; EReg 0 0; EExit 5 0; ESigchld; EReg 0 1; ELoop; ESpawn 5; EExit 5 256; ESigchld; ELoop; EReg 1 2; ELoop; ESigchld; ELoop].
 Example ex_reuse_not_wf : wf ex_reuse = false. Proof. reflexivity. Qed.
-Example ex_reuse_result : w_log (run ex_reuse) = [LCall 0 0 0; LCall 0 1 1]. Proof. vm_compute. reflexivity. Qed.
+Example ex_reuse_result : w_log (run ex_reuse) = [LCall 0 1 0] /\ map s_rc (w_subs (run ex_reuse)) = [Some 1; None].
+Proof. vm_compute. split; reflexivity. Qed.
 
 (* the stopped-shaped status: assertion, returncode stays None, callback never runs *)
 Example ex_assert : w_log (run [ESpawn 5; EReg 0 0; EExit 5 4991; ESigchld; ELoop]) = [LAssert 0].
